@@ -48,6 +48,13 @@ func TraverseAST(node ast.Node, env *Pass1) ast.Node {
 			return nil // またはエラーを適切に処理します
 		}
 
+		// A definition that (directly or through earlier definitions) mentions its own
+		// name would expand without end when it is used.
+		if expMentionsIdent(evalValueExp, n.Id.Value) {
+			log.Printf("error: EQU %s is defined in terms of itself (%s)", n.Id.Value, evalValueExp.TokenLiteral())
+			return nil
+		}
+
 		// Pass1 のメソッドを使用して環境にマクロを定義します。
 		env.DefineMacro(n.Id.Value, evalValueExp)
 		log.Printf("debug: Defined macro '%s' = %s", n.Id.Value, evalValueExp.TokenLiteral())
@@ -284,4 +291,51 @@ func getConstValue(exp ast.Exp) (int, bool) {
 		}
 	}
 	return 0, false
+}
+
+// expMentionsIdent reports whether an (evaluated) expression still contains the
+// identifier name.
+func expMentionsIdent(exp ast.Exp, name string) bool {
+	switch e := exp.(type) {
+	case nil:
+		return false
+	case *ast.NumberExp:
+		return false
+	case *ast.ImmExp:
+		if id, ok := e.Factor.(*ast.IdentFactor); ok {
+			return id.Value == name
+		}
+		return false
+	case *ast.AddExp:
+		if e == nil {
+			return false
+		}
+		if e.HeadExp != nil && expMentionsIdent(e.HeadExp, name) {
+			return true
+		}
+		for _, t := range e.TailExps {
+			if t != nil && expMentionsIdent(t, name) {
+				return true
+			}
+		}
+		return false
+	case *ast.MultExp:
+		if e == nil {
+			return false
+		}
+		if e.HeadExp != nil && expMentionsIdent(e.HeadExp, name) {
+			return true
+		}
+		for _, t := range e.TailExps {
+			if t != nil && expMentionsIdent(t, name) {
+				return true
+			}
+		}
+		return false
+	case *ast.MemoryAddrExp:
+		return (e.Left != nil && expMentionsIdent(e.Left, name)) || (e.Right != nil && expMentionsIdent(e.Right, name))
+	case *ast.SegmentExp:
+		return (e.Left != nil && expMentionsIdent(e.Left, name)) || (e.Right != nil && expMentionsIdent(e.Right, name))
+	}
+	return false
 }
